@@ -173,12 +173,26 @@ func c16(c *core.Ctx) {
 
 	// closures of the decorator
 	var unaryWrap, streamWrap *ssa.Function
-	for _, a := range dec.AnonFuncs {
-		switch len(a.Params) {
-		case 4:
-			unaryWrap = a
-		case 2:
-			streamWrap = a
+	// the literals of the decorator itself, and of the single-use step functions it is split into
+	// (interceptMethods / interceptStreams): what a "split function" clean-up leaves behind
+	litHosts := []*ssa.Function{dec}
+	for _, h := range core.HelperCallsOf(dec) {
+		if h.Callee != nil && h.Callee.Blocks != nil && core.PkgIs(h.Callee, ".") && core.InlineSite[h.Callee] != nil {
+			litHosts = append(litHosts, h.Callee)
+		}
+	}
+	for _, host := range litHosts {
+		for _, a := range host.AnonFuncs {
+			switch len(a.Params) {
+			case 4:
+				if unaryWrap == nil {
+					unaryWrap = a
+				}
+			case 2:
+				if streamWrap == nil {
+					streamWrap = a
+				}
+			}
 		}
 	}
 
@@ -266,6 +280,18 @@ func c16(c *core.Ctx) {
 				var direct, combined ssa.Value
 				var combFn *ssa.Function
 				okDirect, okCombinedGuard := true, true
+				// an alternative that is the result of a single-use chain helper which always returns its literal: the
+				// literal stands for the call (the choice was made by the caller, at the alternative's own edge)
+				for i := range alts {
+					if hc, isCall := alts[i].v.(*ssa.Call); isCall {
+						if h := hc.Call.StaticCallee(); h != nil && h.Blocks != nil && core.PkgIs(h, ".") && core.InlineSite[h] != nil {
+							rets := core.Returns(h)
+							if len(rets) == 1 && len(rets[0].Results) == 1 && closureOfValue(rets[0].Results[0]) != nil {
+								alts[i].v = rets[0].Results[0]
+							}
+						}
+					}
+				}
 				for _, a := range alts {
 					if mc := closureOfValue(a.v); mc != nil {
 						combined, combFn = a.v, mc
@@ -747,7 +773,7 @@ func c16(c *core.Ctx) {
 
 	// ---------------------------------------------------------------- R6
 	if c.Rule("R6", "per-entry closures in the decorator: literals created in the loops capture per-iteration cells only", 2) {
-		loopCaptureCheck(c, []*ssa.Function{dec})
+		loopCaptureCheck(c, litHosts)
 		c.EndRule()
 	}
 }
